@@ -276,16 +276,24 @@ func cmdCheck(eng *Engine, args []string) int {
 		}
 	}
 	// finite-domain obligations (complete evaluation of the real code)
-	for _, r := range eng.finiteDomain(id, tmp) {
+	for _, r := range append(eng.finiteDomain(id, tmp), eng.confinedChecks(id)...) {
 		nOb++
 		if r.OK {
 			nOK++
-			byBackend["finite-domain"]++
-			samples = append(samples, fmt.Sprintf("%s: %s  [finite-domain: real code evaluated on the complete domain]", r.Name, r.Goal))
+			if strings.Contains(r.Name, "/finite-domain/") {
+				byBackend["finite-domain"]++
+			} else {
+				byBackend["ssa-scan"]++
+			}
+			samples = append(samples, fmt.Sprintf("%s: %s", r.Name, r.Goal))
 			continue
 		}
 		// the mismatching cases ARE the failing inputs, observed on the real code
-		violation(r.Name, fmt.Sprintf("obligation: %s\nkind: finite-domain\ngoal: %s\nREPRODUCED on the real code (go test -overlay harness in package directive):\n%s\n", r.Name, r.Goal, r.Detail), false)
+		if strings.Contains(r.Name, "/finite-domain/") {
+			violation(r.Name, fmt.Sprintf("obligation: %s\nkind: finite-domain\ngoal: %s\nREPRODUCED on the real code (go test -overlay harness in package directive):\n%s\n", r.Name, r.Goal, r.Detail), false)
+		} else {
+			violation(r.Name, fmt.Sprintf("obligation: %s\nkind: whole-module SSA scan\ngoal: %s\n%s\n", r.Name, r.Goal, r.Detail), true)
+		}
 	}
 	if nOb == 0 {
 		violation("no-obligations", "no obligation was generated for this property (vacuity guard)\n", true)
@@ -296,7 +304,9 @@ func cmdCheck(eng *Engine, args []string) int {
 	sort.Strings(fnNames)
 	var as []string
 	for a := range assumed {
-		if strings.HasPrefix(a, "AXIOM ") {
+		if strings.HasPrefix(a, "FTYPE ") {
+			as = append(as, a[6:])
+		} else if strings.HasPrefix(a, "AXIOM ") {
 			as = append(as, "definitional axiom of an abstract predicate, "+strings.TrimSpace(a[6:]))
 		} else if strings.HasPrefix(a, "GLOBALINV ") {
 			as = append(as, "package-level variable initialised once and never reassigned: "+strings.TrimSpace(a[10:]))
